@@ -96,12 +96,19 @@ func (r *runner) closeAndCheckTeardown(what string, baseWorkers int) {
 		r.failf("harness: the websocket reader did not end after Close")
 	}
 	w := newWaiter()
+	seen := 0
 	for {
 		total, _, dump := handlerGoroutines()
 		workers := apiWorkers()
 		if total == 0 && workers <= baseWorkers {
-			return
+			// one observation is not trusted (see waitQuiet)
+			if seen++; seen >= 3 {
+				return
+			}
+			time.Sleep(300 * time.Microsecond)
+			continue
 		}
+		seen = 0
 		if !w.pause() {
 			r.failf("WEDGED: %s: %d handler goroutines and %d workers of the api module (before the connection: %d) are left %s after the client closed the websocket connection\n%s",
 				what, total, workers, baseWorkers, waitBound, dump)
@@ -124,8 +131,8 @@ func runWebsocketCase(t fataler, c *dbCase, abrupt int) map[string]int {
 			}
 		}
 	}
-	if total, _, dump := handlerGoroutines(); total != 0 {
-		t.Fatalf("harness: %d database API handler goroutines are alive before the case starts\n%s", total, dump)
+	if _, ok, dump := waitQuiet(2); !ok {
+		t.Fatalf("harness: database API handler goroutines are alive before the case starts\n%s", dump)
 	}
 	base := apiWorkers()
 	classes := map[string]int{}
